@@ -66,6 +66,11 @@ func (h *hist) evm(from world.Actor, to common.Address, data []byte, value *big.
 func (h *hist) block(hook func(ctx sdk.Context), dt time.Duration) *abci.ResponseFinalizeBlock {
 	pre := h.pre
 	h.pre = nil
+	if simulateBeforeBlock {
+		for _, bz := range h.txs {
+			_, _, _ = h.w.App.Simulate(bz) // outcome irrelevant: the execution is thrown away
+		}
+	}
 	res, err := h.w.RealBlock(func(ctx sdk.Context) {
 		if hook != nil {
 			hook(ctx)
